@@ -46,8 +46,9 @@ func (v *Vue) evaluate(ctx VueContext, nodes []*html.Node, depth int) ([]*html.N
 		case html.ElementNode:
 			tag := node.Data
 
-			// Check for v-once early - skip if already rendered
-			if helpers.HasAttr(node, "v-once") {
+			// Check for v-once early - skip if already rendered. An element that still carries v-for is the
+			// loop template, not an instance: the check applies to each per-item clone instead.
+			if helpers.HasAttr(node, "v-once") && !helpers.HasAttr(node, "v-for") {
 				vSeenID := helpers.GetAttr(node, "v-once-id")
 				if ctx.seen[vSeenID] {
 					// This v-once element has already been rendered, skip it
